@@ -47,6 +47,7 @@ type RefObs struct {
 	Kind     string // fatal kind
 	Msg      string // uncaught message
 	ThrowAt  *Rng   // range of the throw call for uncaught
+	FatalAt  *Rng   // range of the innermost expression that raised a fatal error
 	Unspec   string // non-empty: the run touched behaviour the property leaves open
 	Steps    int
 	Ret      Val
@@ -182,6 +183,9 @@ func (in *Interp) finish(c *ctl) RefObs {
 			}
 		case ctlFatal:
 			o.Class, o.Kind, o.Msg = "fatal", c.kind, c.msg
+			if r, ok := in.pr.Ranges[c.at]; ok {
+				o.FatalAt = &r
+			}
 		case ctlUnspec:
 			o.Unspec = c.msg
 		case ctlBudget:
@@ -578,6 +582,14 @@ func (in *Interp) call(f *FnV, args []Val, at any) (Val, *ctl) {
 }
 
 func (in *Interp) eval(x Expr, e *env) (Val, *ctl) {
+	v, c := in.eval1(x, e)
+	if c != nil && c.k == ctlFatal && c.at == nil {
+		c.at = x // innermost expression whose evaluation raised the fatal error
+	}
+	return v, c
+}
+
+func (in *Interp) eval1(x Expr, e *env) (Val, *ctl) {
 	if c := in.tick(); c != nil {
 		return nil, c
 	}
